@@ -60,11 +60,15 @@ Definition filter_used_params (ps : list gparam) (w : list wpred) (not_skipped_t
     ([visit_struct_fields_unconditional]: skipped fields too, attributes not consulted) *)
 Definition variant_params (it : gitem) (v : gvariant) : list string :=
   process_for_params (fold_left visit_field (gv_fields v) (finder_new (without_defaults (gi_params it)))).
+(** [r#type] -> [type]: a raw identifier is not a valid fragment of a longer identifier *)
+Definition unraw (s : string) : string :=
+  if String.prefix "r#" s then String.substring 2 (String.length s - 2) s else s.
+
 Definition inner_struct_generics (it : gitem) (v : gvariant) : list gparam * list wpred :=
   filter_used_params (without_defaults (gi_params it)) (gi_where it) (variant_params it v).
 (** the inner struct [EnumVariant], which itself derives BorshSchema *)
 Definition inner_struct (it : gitem) (v : gvariant) : gitem :=
-  {| gi_name := gi_name it ++ gv_name v;
+  {| gi_name := unraw (gi_name it) ++ unraw (gv_name v);     (* the fragments lose their [r#] (F16) *)
      gi_params := fst (inner_struct_generics it v);
      gi_where := snd (inner_struct_generics it v);
      gi_body := GStruct (gv_fields v) |}.
